@@ -74,3 +74,66 @@ Definition lists_ok (c : lists_case) : bool :=
 
 Definition mismatches_lists (cs : list lists_case) : list N :=
   map (fun c => let '(id, _, _, _) := c in id) (filter (fun c => negb (lists_ok c)) cs).
+
+(* ---- the filesystem model against the real filesystem ---- *)
+Inductive fsop :=
+  | FLstat (p : path) | FReadlink (p : path) | FRemove (p : path) | FRemoveAll (p : path) | FMkdirAll (p : path)
+  | FSymlink (d : N) (p : path) | FRename (p q : path) | FRead (p : path) | FCreate (p : path) (c : list N).
+
+Inductive fsobs := ONone | OKind (k : N) | ODest (d : N) | OData (c : list N).
+
+Definition fsobs_eqb (a b : fsobs) : bool :=
+  match a, b with
+  | ONone, ONone => true
+  | OKind x, OKind y => N.eqb x y
+  | ODest x, ODest y => N.eqb x y
+  | OData x, OData y => nlist_eqb x y
+  | _, _ => false
+  end.
+
+Definition errno_code (e : errno) : N :=
+  match e with ENOENT => 1 | ENOTDIR => 2 | EISDIR => 3 | ENOTEMPTY => 4 | EEXIST => 5 | EINVAL => 6 end.
+
+(** result of one operation: None = the model declines; otherwise (code, observation, new tree) *)
+Definition fs_step (t : fs) (o : fsop) : option (N * fsobs * fs) :=
+  let lift (r : res fs) := match r with Ok t' => Some (0, ONone, t') | Err e => Some (errno_code e, ONone, t) | Unmodelled => None end in
+  match o with
+  | FLstat p => match lstat t p with
+                | Ok n => Some (0, OKind (match n with File _ => 0 | Dir => 1 | Link _ => 2 end), t)
+                | Err e => Some (errno_code e, ONone, t) | Unmodelled => None end
+  | FReadlink p => match readlink t p with
+                   | Ok d => Some (0, ODest d, t) | Err e => Some (errno_code e, ONone, t) | Unmodelled => None end
+  | FRemove p => lift (remove t p)
+  | FRemoveAll p => lift (remove_all t p)
+  | FMkdirAll p => lift (mkdir_all t p)
+  | FSymlink d p => lift (symlink t d p)
+  | FRename p q => match rename t p q with
+                   | Ok t' => Some (0, ONone, t') | Err _ => Some (9, ONone, t) | Unmodelled => None end
+  | FRead p => match read_file t p with
+               | Ok c => Some (0, OData c, t) | Err e => Some (errno_code e, ONone, t) | Unmodelled => None end
+  | FCreate p c => lift (create_trunc t p c)
+  end.
+
+Fixpoint fs_run (t : fs) (ops : list fsop) (obs : list (N * fsobs)) : option (bool * fs) :=
+  match ops, obs with
+  | [], [] => Some (true, t)
+  | o :: ops', (code, ob) :: obs' =>
+      match fs_step t o with
+      | None => None
+      | Some (c, b, t') => if N.eqb c code && fsobs_eqb b ob then fs_run t' ops' obs' else Some (false, t')
+      end
+  | _, _ => Some (false, t)
+  end.
+
+Definition fsops_case := (N * list (path * rnode) * list fsop * list (N * fsobs) * list (path * rnode))%type.
+
+Definition fsops_ok (c : fsops_case) : bool :=
+  let '(_, t0, ops, obs, final) := c in
+  match fs_run (tree_of_r t0) ops obs with
+  | None => true
+  | Some (false, _) => false
+  | Some (true, t) => fs_eqb t (tree_of_r final)
+  end.
+
+Definition mismatches_fsops (cs : list fsops_case) : list N :=
+  map (fun c => let '(id, _, _, _, _) := c in id) (filter (fun c => negb (fsops_ok c)) cs).
